@@ -37,9 +37,11 @@ def s_list_eq(a, b):
     return s_and(*[x == y for x, y in zip(a, b)]) if a else True
 
 
-def make_kex(M, L, host_keys=None, dh=None):
+def make_kex(M, L, host_keys=None, dh=None, c2s=None):
+    """real SSH2_Kex; L holds the server-to-client lists; c2s optionally different client-to-server lists (default: same)"""
     out = M.outputbuffer.OutputBuffer()
-    cli = M.ssh2_kexparty.SSH2_KexParty(L.get('enc', ['e']), L.get('mac', ['m']), L.get('comp', ['none']), [''])
+    C = c2s or {}
+    cli = M.ssh2_kexparty.SSH2_KexParty(C.get('enc', L.get('enc', ['e'])), C.get('mac', L.get('mac', ['m'])), C.get('comp', L.get('comp', ['none'])), [''])
     srv = M.ssh2_kexparty.SSH2_KexParty(L.get('enc', ['e']), L.get('mac', ['m']), L.get('comp', ['none']), [''])
     kex = M.ssh2_kex.SSH2_Kex(out, b'\x00' * 16, L.get('kex', ['k']), L.get('key', ['h']), cli, srv, False, 0)
     for t, (sz, cat, casz) in (host_keys or {}).items():
@@ -162,6 +164,77 @@ def s_ite_bool(c, a, b):
 
 
 CA_TYPES = ['', 'ssh-rsa', 'ssh-ed25519', 'ecdsa-sha2-nistp256']
+
+
+class TextPolicyEval(Harness):
+    """the same rules through a policy LOADED FROM TEXT (the -P file path): every directive the parser knows, then evaluate against a symbolic peer."""
+    prop, ob = PROP, 'O12'
+    width = 64
+
+    def __init__(self, subset, larger, nopt):
+        self.subset, self.larger, self.nopt = subset, larger, nopt
+        self.name = 'textpolicy-%s-%s-opt%d' % ('subset' if subset else 'exact', 'larger' if larger else 'equal', nopt)
+
+    def params(self):
+        return {'subset': self.subset, 'larger': self.larger, 'nopt': self.nopt}
+
+    def inputs(self):
+        AZ = ((0x61, 0x7A),)   # parser-neutral characters: the parser's own special characters are C05's subject
+        nm = lambda pfx, n: [zx.fresh_str('%s%d' % (pfx, i), 1, AZ) for i in range(n)]
+        pol = {f: ['c' + f] for f in LIST_FIELDS}
+        peer = {f: ['c' + f] for f in LIST_FIELDS}
+        pol['key'], peer['key'] = nm('pk', 1), nm('kk', 2)
+        pol['kex'], peer['kex'] = nm('px', 1), nm('kx', 1)
+        return {'pol': pol, 'peer': peer, 'opt': nm('o', self.nopt), 'dh': sym_size('dh', 4), 'kdh': sym_size('kdh', 4)}
+
+    def text(self, inp):
+        P = inp['pol']
+        J = zx.shims.zx_join
+        t = 'name = "t"\nversion = 1\n'
+        t = t + 'allow_algorithm_subset_and_reordering = ' + ('true' if self.subset else 'false') + '\n'
+        t = t + 'allow_larger_keys = ' + ('true' if self.larger else 'false') + '\n'
+        t = t + 'compressions = ' + J(', ', P['comp']) + '\n'
+        t = t + 'host keys = ' + J(', ', P['key']) + '\n'
+        if self.nopt:
+            t = t + 'optional host keys = ' + J(', ', inp['opt']) + '\n'
+        t = t + 'key exchanges = ' + J(', ', P['kex']) + '\nciphers = ' + J(', ', P['enc']) + '\nmacs = ' + J(', ', P['mac']) + '\n'
+        t = t + 'dh_modulus_sizes = {"diffie-hellman-group-exchange-sha256": ' + zx.shims.z_str(inp['dh']) + '}\n'
+        return t
+
+    def run(self, M, inp):
+        from props.c05 import TokenJson
+        from vf import auditenv as AE
+        txt = self.text(inp)
+        G = 'diffie-hellman-group-exchange-sha256'
+
+        class J:
+            @staticmethod
+            def loads(sx):
+                return {G: inp['dh']}
+        ctx = AE.patched(M.policy, json=J) if M.kind == 'instrumented' else AE.patched(M.policy)
+        with ctx:
+            p = guarded(lambda: M.policy.Policy(policy_data=txt))
+        if isinstance(p, Exc):
+            return {'load': p}
+        kex = make_kex(M, {f: list(v) for f, v in inp['peer'].items()}, dh={G: inp['kdh']})
+        r = guarded(p.evaluate, None, kex)
+        if isinstance(r, Exc):
+            return {'exc': r}
+        return {'passed': r[0], 'labels': sorted(e['mismatched_field'] for e in r[1]), 'opt_loaded': p._optional_host_keys}
+
+    def check(self, inp, obs):
+        yield 'loads', 'load' not in obs
+        if 'load' in obs:
+            return
+        if 'exc' in obs:
+            yield 'no-exception', False
+            return
+        fake = ListEval({f: (('x',), ('x',) if f != 'key' else ('x', 'x')) for f in LIST_FIELDS})
+        spec_inp = {'pol': inp['pol'], 'peer': inp['peer'], 'opt': ({'key': inp['opt']} if self.nopt else {}), 'subset': self.subset}
+        oks = {f: fake.spec_field(f, spec_inp) for f in LIST_FIELDS}
+        dh_ok = (inp['kdh'] >= inp['dh']) if self.larger else (inp['kdh'] == inp['dh'])
+        yield 'verdict==spec', obs['passed'] == s_and(dh_ok, *oks.values())
+        yield 'optional-host-keys-loaded', (obs['opt_loaded'] is None) == (self.nopt == 0) and (self.nopt == 0 or s_list_eq(obs['opt_loaded'], inp['opt']))
 
 
 class SizeEval(Harness):
@@ -386,6 +459,10 @@ def tasks(tier):
                 if ks[d] in ('S', 'C'):
                     continue   # dropping a demanded strict-kex marker is the documented exception
                 T.append(Monotone(f, ps, ks, d))
+    for subset in (False, True):
+        for larger in (False, True):
+            for nopt in ((0, 1) if q else (0, 1, 2)):
+                T.append(TextPolicyEval(subset, larger, nopt))
     T.append(fresh_policy_per_evaluation)
     return T
 
@@ -398,6 +475,8 @@ def harness_by_name(name, params):
         return SizeEval(params['pol_ca'], params['peer_ca'], params['present'], params['dh'], params.get('nd', (4, 4)))
     if k == 'banner':
         return BannerEval(params['n'], params['with_kex'])
+    if k == 'textpolicy':
+        return TextPolicyEval(params['subset'], params['larger'], params['nopt'])
     if k == 'monotone':
         return Monotone(params['field'], params['pshape'], params['kshape'], params['drop'])
     raise KeyError(name)
